@@ -648,7 +648,9 @@ fn create_doc_without_preceding_comment(
       }
       if e.e2.precedence() == expression.precedence() {
         // Parentheses around a right operand of the same level can only be removed when it applies
-        // the same associative operator: a + (b + c) == a + b + c, but a * (b / c) != a * b / c.
+        // the same associative operator: a + (b + c) == a + b + c, but a * (b / c) != a * b / c,
+        // and when its own left operand is not a chain of that level: a * ((x / y) * z) would be
+        // printed a * x / y * z.
         match (e.operator, e.e2.as_ref()) {
           (
             expr::BinaryOperator::PLUS
@@ -656,7 +658,9 @@ fn create_doc_without_preceding_comment(
             | expr::BinaryOperator::AND
             | expr::BinaryOperator::OR,
             expr::E::Binary(inner),
-          ) if inner.operator == e.operator => {
+          ) if inner.operator == e.operator
+            && inner.e1.precedence() != expression.precedence() =>
+          {
             return Document::concat(vec![
               create_doc_for_subexpression_considering_precedence_level(
                 heap,
